@@ -263,3 +263,17 @@ Proof.
         rewrite (IHn ta tb Dta Dtb Sta Stb Na0 Ea1 Nb0 Eb1 Ht).
         rewrite (IHa Da Sa Sa' Na' Ea' eb Db Sb Sb' Nb' Eb' Hr). reflexivity.
 Qed.
+
+(* == decides equality of the pruned copies: two well-formed root fibers compare equal exactly
+   when nonEmpty() gives the SAME tree for both (structural identity of canonical forms) *)
+Lemma eq_iff_same_pruned n d a b : wf_root n a -> wf_root n b ->
+  (fiber_eq d d a b = true <-> non_empty d a = non_empty d b).
+Proof.
+  intros Wa Wb. rewrite (fiber_eq_content_wf n d d a b Wa Wb). split; intros H.
+  - destruct Wa as [[ea ->] [Da Sa]]. destruct Wb as [[eb ->] [Db Sb]].
+    pose proof (non_empty_canonical d ea) as Ca. pose proof (non_empty_canonical d eb) as Cb.
+    unfold canonical in Ca, Cb. apply andb_true_iff in Ca, Cb. destruct Ca as [Ca1 Ca2], Cb as [Cb1 Cb2].
+    apply (canonical_unique d n); auto using non_empty_depth, non_empty_sorted.
+    rewrite !non_empty_content. exact H.
+  - rewrite <- (non_empty_content d a), <- (non_empty_content d b), H. reflexivity.
+Qed.
